@@ -73,6 +73,10 @@ pub struct FidCase {
     /// `pb.style().template(..)` + `set_style` instead of `with_template`
     #[serde(default)]
     pub via_bar_style: Option<u8>,
+    /// a custom key is registered under the name `wide_msg`: like any custom key it takes the place of the
+    /// built-in one (its output, no filling)
+    #[serde(default)]
+    pub shadow_wide: bool,
 }
 
 pub fn key_name(k: &KeyRef) -> String {
@@ -244,7 +248,7 @@ fn normalise(parts: &[TPart]) -> Vec<TPart> {
 }
 
 fn run_fidelity(c0: &FidCase) -> CaseResult {
-    let c = &FidCase { parts: normalise(&c0.parts), via_bar_style: c0.via_bar_style };
+    let c = &FidCase { parts: normalise(&c0.parts), via_bar_style: c0.via_bar_style, shadow_wide: c0.shadow_wide };
     let template = encode(&c.parts);
     let max_width = c
         .parts
@@ -282,12 +286,26 @@ fn run_fidelity(c0: &FidCase) -> CaseResult {
         None => style,
     };
     let tab_width = setup.tab_width.unwrap_or(8);
+    let style = if c.shadow_wide {
+        style.with_key("wide_msg", |_: &ProgressState, w: &mut dyn std::fmt::Write| {
+            let _ = w.write_str("SHADOW");
+        })
+    } else {
+        style
+    };
     let lines = match render(with_custom_keys(style), &setup) {
         Ok(l) => l,
         Err(RenderErr::Panic(p)) => return Err(Fail::new("render_panic", format!("rendering {template:?} panicked: {p}"))),
         Err(RenderErr::Pattern(p)) => return Err(Fail::new("harness", format!("rendering {template:?}: {p}"))),
     };
-    let alts = reference(&c.parts, tab_width);
+    let mut alts = reference(&c.parts, tab_width);
+    if c.shadow_wide {
+        for a in &mut alts {
+            if a[0] == WIDE || a[0] == WIDE_R {
+                *a = vec!["SHADOW".to_string()];
+            }
+        }
+    }
     let first: String = alts.iter().map(|a| if a[0] == WIDE || a[0] == WIDE_R { "Msg" } else { a[0].as_str() }).collect();
     // `lines()` convention: a final newline does not start another line
     let want_lines = if first.is_empty() { 0 } else { first.strip_suffix('\n').unwrap_or(&first).matches('\n').count() + 1 };
@@ -314,7 +332,8 @@ fn run_fidelity(c0: &FidCase) -> CaseResult {
         if want_lines == 0 { vec![] } else { first.strip_suffix('\n').unwrap_or(&first).split('\n').collect::<Vec<_>>() }
     );
     // a line with {wide_msg} fills the terminal exactly, unless the rest alone is wider
-    let has_wide = c.parts.iter().any(|p| matches!(p, TPart::WideMsg | TPart::WideMsgRight));
+    let has_wide = !c.shadow_wide && c.parts.iter().any(|p| matches!(p, TPart::WideMsg | TPart::WideMsgRight));
+    v.label_if(c.shadow_wide && c.parts.iter().any(|p| matches!(p, TPart::WideMsg | TPart::WideMsgRight)), "custom_key_named_wide_msg");
     // (only where template lines and output lines coincide: no line break inside a literal or an expansion)
     if has_wide && !brace_nl && !c.parts.iter().any(|p| matches!(p, TPart::Ph { key, .. } if key_expansion(key).contains('\n'))) {
         let mut line = 0;
@@ -395,6 +414,9 @@ fn key_strategy() -> BoxedStrategy<KeyRef> {
             .prop_map(|(k, a)| { let (pre, suf) = AFFIXES[a]; format!("{pre}{}{suf}", DOCUMENTED[k]) })
             .prop_filter("not a known key", |s| !DOCUMENTED.contains(&s.as_str()) && !CUSTOM.iter().any(|k| k.0 == s))
             .prop_map(KeyRef::Unknown),
+        // key characters that are white space outside ASCII, or the vertical tab: ordinary key characters
+        1 => ("[a-z]{0,3}", prop_oneof![Just('\u{a0}'), Just('\u{2003}'), Just('\u{3000}'), Just('\u{85}'), Just('\u{b}'), Just('\u{202f}')], "[a-z]{0,3}")
+            .prop_map(|(a, c, b)| KeyRef::Unknown(format!("{a}{c}{b}"))),
     ]
     .boxed()
 }
@@ -442,7 +464,7 @@ fn part_strategy() -> BoxedStrategy<TPart> {
 }
 
 pub fn fid_strategy() -> BoxedStrategy<FidCase> {
-    (proptest::collection::vec(part_strategy(), 0..9), proptest::option::weighted(0.2, 0u8..17)).prop_map(|(parts, via_bar_style)| FidCase { parts, via_bar_style }).boxed()
+    (proptest::collection::vec(part_strategy(), 0..9), proptest::option::weighted(0.2, 0u8..17), proptest::bool::weighted(0.15)).prop_map(|(parts, via_bar_style, shadow_wide)| FidCase { parts, via_bar_style, shadow_wide }).boxed()
 }
 
 // ------------------------------------------------------------------------------------------
@@ -537,7 +559,7 @@ fn decode_fid(u: &mut FuzzInput) -> FidCase {
         });
     }
     let via_bar_style = if parts.len() % 4 == 3 { Some(parts.len() as u8 * 3 % 17) } else { None };
-    FidCase { parts, via_bar_style }
+    FidCase { parts, via_bar_style, shadow_wide: false }
 }
 
 pub fn property() -> Property {
@@ -570,7 +592,7 @@ pub fn property() -> Property {
                 cases: |t| t.pick(12_000, 1_600_000),
                 run: run_fidelity,
                 signature: no_signature,
-                essential: &["two_placeholders", "brace_ws_adjacent_to_literal", "multi_line", "escaped_braces", "unknown_key", "width", "truncate", "style", "width_gt_255", "width_written_with_leading_zeros", "wide_msg_right_aligned"],
+                essential: &["two_placeholders", "brace_ws_adjacent_to_literal", "multi_line", "escaped_braces", "unknown_key", "width", "truncate", "style", "width_gt_255", "width_written_with_leading_zeros", "wide_msg_right_aligned", "custom_key_named_wide_msg"],
                 workers: w,
                 decode: Some(decode_fid),
             }),
